@@ -95,11 +95,27 @@ CHECKS = {
         note="Geometric clauses at 2^-20 with a tolerance of 16 + 4 ulp per summed term; the rotation identity is required on the quadrature-face "
              "nodes only (the remaining nodes do not enter any quantity named in C13; the full-cell identity is checked under C06).",
         ref="5/C13"),
+    "C02": dict(
+        engine="Assembly",
+        technique="TLA+ definition of the linear/bilinear form sums (Assembly.tla) recomputed by TLC in exact integer arithmetic on real forms whose "
+                  "region arrays were overwritten with integers; schedule model Threads.tla explored exhaustively by TLC; reference instances AssemblyMC",
+        text="TLC recomputes, entry by entry, the defining sum over cells, quadrature points, shape functions and components and its placement at "
+             "Dof(field, point, component) for value/gradient test and trial spaces, dims 1-3, scalar integrands, plane-strain trimming, "
+             "axisymmetric 2 pi R weighting with hoop terms, mixed containers (incl. dual fields) in block modes 1/2/3 with absent blocks, and "
+             "compares with the matrix/vector the real IntegralForm assembled -- tolerance 0. Parallel flag, uniform-grid region, Form "
+             "expression API (sym x parallel) and serial thread schedules are equalities between observed results; all interleavings of the "
+             "thread fan-out are explored on Threads.tla (disjoint and mirrored-symmetric write sets are schedule independent; a "
+             "non-symmetric form under sym=True and a racy accumulation are rejected).",
+        note="Exactness relies on injected integer arrays (the assembly code is data independent); a second family uses genuine regions for the "
+             "uniform-grid equality at 2^-20. Instruction-level pre-emption is covered by the model only.",
+        ref="5/C02"),
 }
 
 NOT_YET = {}
 
 ENGINES = [
+    {"name": "Assembly", "path": "spec/Assembly.tla", "serves_properties": ["C02"],
+     "kind_free_text": "TLA+ defining sums of integral forms (exact integers) + Threads.tla interleaving model + AssemblyMC.tla references"},
     {"name": "Surface", "path": "spec/Surface.tla", "serves_properties": ["C13"],
      "kind_free_text": "TLA+ incidence structure + proper rotation group; table/selection/geometric laws; SurfaceMC.tla reference and negatives"},
     {"name": "Dof", "path": "spec/Dof.tla", "serves_properties": ["C08"],
